@@ -2,6 +2,7 @@
 import json
 import os
 import re
+import shutil
 
 from . import tlc
 from .common import MachineryError
@@ -27,6 +28,13 @@ def validate(workdir, module, trace_path, constants, timeout=3000, workers=1):
     for k, v in constants.items():
         cfg += f"  {k} = {v}\n"
     cfg += "POSTCONDITION AllConsumed\n"
+    keep = os.environ.get("VERIF_KEEP_TRACES")
+    if keep:        # used by the trace-corruption self-test (harness/selftest.py)
+        os.makedirs(keep, exist_ok=True)
+        k = len([f for f in os.listdir(keep) if f.endswith(".meta.json")])
+        shutil.copy(trace_path, os.path.join(keep, f"{k}.ndjson"))
+        with open(os.path.join(keep, f"{k}.meta.json"), "w") as f:
+            json.dump({"module": module, "constants": constants}, f)
     res = tlc.run_tlc(workdir, module, cfg, workers=workers, timeout=timeout)
     if res.error and not res.error.startswith("postcondition"):
         raise MachineryError(f"trace validation ({module}) did not run to the end: {res.error}\n{res.out[-3000:]}")
